@@ -137,7 +137,10 @@ def handleBmp (cmd : String) (args : List String) : Option String :=
   | "bmp.pitchgen", [bits, w] => do
       let bits ← nat? bits; let w ← int? w
       let w := Op2.i32 (toU32 w)
-      pure s!"{Op2.Gen.Formulas.gen_CalcPixelByteWidth ((bits % W16 : Nat) : Int) w} {Op2.Gen.Formulas.gen_CalculatePitch ((bits % W16 : Nat) : Int) w}"
+      -- (a function that left the translator's fragment is tied by the model functions alone)
+      if Op2.Gen.Formulas.gen_CalcPixelByteWidth_translated && Op2.Gen.Formulas.gen_CalculatePitch_translated then
+        pure s!"{Op2.Gen.Formulas.gen_CalcPixelByteWidth ((bits % W16 : Nat) : Int) w} {Op2.Gen.Formulas.gen_CalculatePitch ((bits % W16 : Nat) : Int) w}"
+      else pure s!"{pixByteWidth (bits % W16) w} {pitch (bits % W16) w}"
   | "bmp.pitchsweep", [bits, w0, w1] => do
       let bits ← nat? bits; let w0 ← int? w0; let w1 ← int? w1
       pure (pitchSweep (bits % W16) w0 w1)
